@@ -44,6 +44,9 @@ static Bytes check_packet(PDU* p, const std::string& origin, bool allow_big = fa
     if (sz != expect) { violation("size-sum/" + cls(p), "size()=" + std::to_string(sz) + " but the layers' header+trailer sizes add up to " + std::to_string(expect) + " chain=" + chain); }
     if (expect > 65535 + 64 && !allow_big) { cnt("skipped_oversize"); return Bytes(); }
     g_stack.clear(); g_cur_layer.clear();
+    // a header longer than its own 4-bit length field can express (IPv4/TCP: 60 octets) has no serialization: refusing it is the right answer
+    bool unrepresentable = false; for (const PDU* q = p; q; q = q->inner_pdu()) if ((dynamic_cast<const TCP*>(q) || dynamic_cast<const IP*>(q)) && q->header_size() > 60) unrepresentable = true;
+    struct Restore { bool& f; bool old; ~Restore() { f = old; } } restore{g_may_refuse, g_may_refuse}; if (unrepresentable) { g_may_refuse = true; cnt("packets_beyond_ipv4_tcp_header_limit"); }
     Bytes y;
     try { y = p->serialize(); }
     catch (const pdu_not_serializable&) {
